@@ -136,10 +136,7 @@ def lean_side(pid: str, tier: str) -> dict:
     return res
 
 # ---------------------------------------------------------------- driver
-def run_driver(payloads: list[dict]) -> list[dict]:
-    """feed one JSON object per line to the compiled Lean model"""
-    if not payloads:
-        return []
+def _run_driver_chunk(payloads: list[dict]) -> list[dict]:
     data = '\n'.join(json.dumps(p, separators=(',', ':')) for p in payloads) + '\n'
     p = subprocess.run([DRIVER], input=data, capture_output=True, text=True)
     if p.returncode != 0:
@@ -148,6 +145,23 @@ def run_driver(payloads: list[dict]) -> list[dict]:
     if len(lines) != len(payloads):
         raise RuntimeError(f'driver answered {len(lines)} lines for {len(payloads)} payloads')
     return [json.loads(l) for l in lines]
+
+def run_driver(payloads: list[dict], jobs: int | None = None) -> list[dict]:
+    """feed one JSON object per line to the compiled Lean model (several driver processes for large batches;
+    cases are dealt round-robin so that large cases are spread over the processes)"""
+    if not payloads:
+        return []
+    jobs = jobs or (min(14, os.cpu_count() or 1) if len(payloads) >= 400 else 1)
+    if jobs <= 1:
+        return _run_driver_chunk(payloads)
+    from concurrent.futures import ThreadPoolExecutor
+    chunks = [payloads[i::jobs] for i in range(jobs)]
+    with ThreadPoolExecutor(max_workers=jobs) as ex:
+        parts = list(ex.map(_run_driver_chunk, chunks))
+    out = [None] * len(payloads)
+    for i, part in enumerate(parts):
+        out[i::jobs] = part
+    return out
 
 # ---------------------------------------------------------------- results
 def canon_hash(obj: Any) -> str:
